@@ -1,5 +1,5 @@
 (* Extraction of the executable models: ExtrOcamlBasic only; N, Z, positive, nat stay inductive. *)
 From Coq Require Import Extraction ExtrOcamlBasic.
-From GB Require Import Base.Val Model.Timeout Model.MDFilter Model.Dispatch Model.Routers Model.SvcRoute Model.Lifecycle Model.GrpcWeb Model.ForwardRun Model.HttpErr Model.StreamFrame Model.RouteConcRun Model.Resolver Model.ReflProto Model.JsonRun Model.TranscodeRun Model.TemplateRun Model.FuzzRun Model.Trie.
+From GB Require Import Base.Val Model.Timeout Model.MDFilter Model.Dispatch Model.Routers Model.SvcRoute Model.Lifecycle Model.GrpcWeb Model.ForwardRun Model.HttpErr Model.StreamFrame Model.RouteConcRun Model.Resolver Model.ReflProto Model.JsonRun Model.TranscodeRun Model.TemplateRun Model.FuzzRun Model.Trie Model.Strict.
 Extraction Language OCaml.
 Extraction "model.ml" val_eqb chk_c12_decode chk_c12_enforce chk_c07 chk_c19_dispatch chk_c19_mdquery chk_c06 chk_c14 chk_c16 chk_c08_frames chk_c08_big chk_c08_ws chk_c08_resp chk_fwd chk_fwd_e2e chk_c10_err chk_c10_neg chk_c13_records chk_c13_ws chk_c11 enum_c11 chk_c15 chk_c15_race chk_c05 chk_c09 chk_c09_rt chk_c04 chk_c04_iso chk_c20_gw chk_c20_strict chk_c20_trie chk_c20_trie_model chk_c03 chk_c17 chk_c18 chk_c16_waiting chk_c02_web_idle chk_c12_target chk_c11_stress.
